@@ -215,8 +215,11 @@ impl<T: CloseValue> Slot<T> {
     ///
     /// Returns a mutable reference to the inner data if its guard didn't panic, or else None
     pub async fn wait_for_data(&mut self) -> &mut Option<T::Closed> {
-        if let Some(rx) = self.rx.take() {
+        // Poll the receiver in place: if this future is dropped before the value arrives, the
+        // receiver stays in the slot and closing the parent entry keeps working.
+        if let Some(rx) = self.rx.as_mut() {
             self.data = rx.wait_for_value().await;
+            self.rx = None;
         }
         &mut self.data
     }
@@ -264,8 +267,8 @@ impl<T> Waiting<T> {
     ///
     /// Returns `Some(T)` if the value is received, or `None` if the sender
     /// was dropped without sending a value.
-    async fn wait_for_value(self) -> Option<T> {
-        self.rx.await.ok()
+    async fn wait_for_value(&mut self) -> Option<T> {
+        (&mut self.rx).await.ok()
     }
 }
 
